@@ -896,7 +896,8 @@ class Interp:
                     ctxfn = next(iter(c.methods.values()), None) or next(iter(c.module.functions.values()), None)
                     if ctxfn is None:
                         raise Undecided('class attribute without context')
-                    return self.eval(st.value, {}, ctxfn, depth + 1)
+                    scope = {nm: FuncRef(m_) for nm, m_ in c.methods.items()}
+                    return self.eval(st.value, scope, ctxfn, depth + 1)
         return NotImplemented
 
     # -- calls -----------------------------------------------------------------------------------------------------------------
